@@ -150,6 +150,9 @@ type View struct {
 	BeforeRead func(path string)
 	// FailSave, if set, may return an error for a save: the file does not become durable (injected storage fault).
 	FailSave func(path string) error
+	// Probe, if set, is called at every New / Open / File.URI through this view: a yield point inside code that
+	// touches storage objects without reading or writing (e.g. under a lock).
+	Probe func(op, path string)
 }
 
 func (s *Store) View(name, workingDir string) *View {
@@ -167,10 +170,20 @@ func (v *View) isDead() bool {
 	return v.dead
 }
 
+func (v *View) probe(op, path string) {
+	if p := v.Probe; p != nil {
+		p(op, path)
+	}
+}
+
 func (v *View) New(path string) storage.File {
+	v.probe("new", path)
 	return &file{v: v, path: norm(v.wd, path), w: &bytes.Buffer{}, write: true}
 }
-func (v *View) Open(path string) storage.File { return &file{v: v, path: norm(v.wd, path)} }
+func (v *View) Open(path string) storage.File {
+	v.probe("open", path)
+	return &file{v: v, path: norm(v.wd, path)}
+}
 func (v *View) Copy(src, dst string) error {
 	b, ok := v.S.Read(norm(v.wd, src))
 	if !ok {
@@ -250,7 +263,7 @@ func (f *file) Save() error {
 }
 
 func (f *file) Name() string { return filepath.Base(f.path) }
-func (f *file) URI() string  { return proto + f.path }
+func (f *file) URI() string  { f.v.probe("uri", f.path); return proto + f.path }
 func (f *file) Size() int64  { return f.size }
 func (f *file) Delete() error {
 	if !f.v.isDead() {
